@@ -49,7 +49,7 @@ bool FeatureChecker::visitTemplateBefore(template_t& templ)
 
 void FeatureChecker::visitVariable(variable_t& var)
 {
-    if (var.uid.get_type().is_clock() && !var.init.empty() && var.init.uses_fp())
+    if (var.uid.get_type().strip_array().is_clock() && !var.init.empty() && var.init.uses_fp())
         supported_methods.symbolic = false;
 }
 
